@@ -41,7 +41,8 @@ QUICK_PAIR_KINDS = [
 FIELD_NUMBERS = [1, 15, 16, 2047, 2048, 536870911]
 NAMED_FIELDS = ["foo_bar", "address_line_1", "x_y_z", "ipv4_address", "a1b2", "field_1_name", "is_3d",
                 "k8s_pod", "sha256_hash", "a_b_c_d", "v2", "i_18_n", "utf8_text", "vlan_id_1",
-                "fooBar", "HTTPStatus", "userID", "from", "class", "list"]
+                "fooBar", "HTTPStatus", "userID", "from", "class", "list",
+                "shard__id", "value__x_y"]   # names that snake-casing does not reproduce
 
 
 @dataclass(frozen=True)
